@@ -6,8 +6,9 @@
   gen/SerialGen.v     struct layouts and the three method bodies of every `impl Serializable`
   gen/MethodsGen.v    the loop-free methods of the core modules as monadic Gallina (tied to the hand models
                       by Proofs/MethodsTie.v)
-  gen/LoopsGen.v      functions with loops (BitVector scans, the bit and unary iterators) as monadic Gallina over
-                      the loop combinators of Base/Loops.v (tied to the hand models by Proofs/LoopsTieBV.v)
+  gen/LoopsGen.v      functions with loops (BitVector scans, the bit and unary iterators; Rank9SelIndex / Rank9Sel and
+                      DArrayIndex / DArray builders and selects) as monadic Gallina over the loop combinators of
+                      Base/Loops.v (tied to the hand models by Proofs/LoopsTieBV.v and Proofs/LoopsTieIdx.v)
   gen/fingerprints.json  hash of the normalised token stream of every non-test Rust function
 
 Files are rewritten only when their content changes (so `make` sees stable timestamps).
@@ -719,7 +720,10 @@ COQ_RESERVED = set("""as at cofix else end exists exists2 fix for forall fun if 
     upd_last b2n popcN msb_spec lsb_spec checked_add div_ rem_ fst snd negb andb orb Some None Ok Panic true false
     cfg res W MASK64 list option N bool unit tt""".split())
 
-USIZE, BOOL, UNIT = ("usize",), ("bool",), ("unit",)
+USIZE, BOOL, UNIT, ISIZE, U16 = ("usize",), ("bool",), ("unit",), ("isize",), ("u16",)
+ZCMPS = {"==": "Z.eqb %s %s", "!=": "negb (Z.eqb %s %s)", "<": "Z.ltb %s %s", "<=": "Z.leb %s %s",
+         ">": "Z.ltb %s %s", ">=": "Z.leb %s %s"}
+LOOP_KINDS = ("for", "while", "whilelet", "loop")
 
 
 def coq_ident(name):
@@ -741,7 +745,7 @@ def parse_rtype(s, self_name, generics=None):
         return BOOL
     if s == "()":
         return UNIT
-    if s in ("isize", "u16"):                 # stored in some records; no operation on them is supported
+    if s in ("isize", "u16"):                 # stored in some records; casts, comparisons, isize `-` (LoopsGen)
         return (s,)
     m = re.fullmatch(r"(Option|Vec|Result)\s*<(.*)>", s)
     if m:
@@ -783,6 +787,10 @@ def coq_type(t):
             raise ParseError("struct %s has no record in the hand model" % t[1])
         return rec
     raise ParseError("type %r has no Coq counterpart" % (t,))
+
+
+def is_mut_ref(type_src):
+    return bool(re.match(r"&\s*('[a-z_]+\s+)?mut\b", type_src.strip()))
 
 
 def strip_line_comments(src):
@@ -921,6 +929,8 @@ class MethodsGen:
         """generic parameters bound by `I: IntoIterator<Item = T>` (where clause): they are lists of T"""
         out = {}
         for part in rp.split_top(self.where.get((owner, trait, name), ""), ","):
+            if re.fullmatch(r"\s*Self\s*:\s*Sized\s*", part):
+                continue
             m = re.fullmatch(r"\s*([A-Z])\s*:\s*IntoIterator\s*<\s*Item\s*=\s*([A-Za-z0-9_]+)\s*>\s*", part)
             if not m:
                 raise ParseError("unsupported where clause %r" % part.strip())
@@ -942,6 +952,16 @@ class MethodsGen:
         ptys = [(n, parse_rtype(t, self_name, g)) for n, t in rp.typed_params(params)]
         rty = parse_rtype(self.ret_source(owner, tr, ret), self_name, g) if ret else UNIT
         return rp.self_kind(params), ptys, rty
+
+    broadword_consts = {}      # constants of broadword.rs usable as `broadword::NAME` (LoopsGen only)
+    broadword_fns = {}         # functions of broadword.rs called in their generated form (LoopsGen only)
+
+    def mut_params(self, owner, name):
+        """indexes of the `&mut T` parameters of owner::name: the callee returns their new values"""
+        cands = self.byname.get(owner, {}).get(name, [])
+        if len(cands) != 1:
+            return []
+        return [i for i, (_, t) in enumerate(rp.typed_params(cands[0][1])) if is_mut_ref(t)]
 
     def is_target(self, mod, name):
         return any(n == name for _, n in self.targets[mod])
@@ -1045,8 +1065,10 @@ class FnBody:
         self.declared = [set()]       # per open scope: variables introduced by `let` in it
         self.value_scope = 0          # > 0: inside a conditional *expression*: no return / ? / assignment
         self.join_scope = 0           # > 0: inside an if/else statement without return: no return / ?
-        if self.kind == "move":
-            raise ParseError("methods taking `self` by value are not supported")
+        # `self` / `mut self` by value: an ordinary value named self (its fields may be assigned when `mut`)
+        self.mutparams = [n for n, t in rp.typed_params(params_src) if is_mut_ref(t)]
+        if self.mutparams and (self.kind != "static" or self.ret != UNIT):
+            raise ParseError("`&mut` parameters are supported in static functions returning ()")
         if self.kind != "static":
             self.env["self"] = ("self", ("struct", owner))
         for n, t in self.params:
@@ -1106,6 +1128,28 @@ class FnBody:
             return self.set_place(place[1], self.rebuild(qty[1], qt, place[2], new), out)
         raise ParseError("unsupported place expression")
 
+    def note_assigned(self, name):
+        if self.value_scope:
+            raise ParseError("assignment to `%s` inside a conditional expression" % name)
+        if name not in self.declared[-1]:
+            self.assigned[-1].add(name)
+
+    def refine_vec(self, ast, ty):
+        """a vector created by `vec![]` learns its element type at the first push / call"""
+        if ast[0] in ("ref", "refmut"):
+            ast = ast[1]
+        if ast[0] == "var" and ast[1] in self.env and self.env[ast[1]][1] == ("vec", None) and ty[1] is not None:
+            self.env[ast[1]] = (self.env[ast[1]][0], ty)
+
+    def restore_env(self, saved, inner_declared):
+        """leave a scope: back to the saved environment, keeping element types learnt for outer `vec![]` variables"""
+        for n, (cn, ty) in list(saved.items()):
+            if ty == ("vec", None) and n not in inner_declared and n in self.env:
+                ity = self.env[n][1]
+                if ity[0] == "vec" and ity[1] is not None:
+                    saved[n] = (cn, ity)
+        self.env = saved
+
     def scoped(self, fn):
         """run fn with a copy of the environment and a fresh set of assigned variables"""
         saved = dict(self.env)
@@ -1116,8 +1160,7 @@ class FnBody:
             return r, self.assigned[-1], dict(self.env)
         finally:
             self.assigned.pop()
-            self.declared.pop()
-            self.env = saved
+            self.restore_env(saved, self.declared.pop())
 
     def value_block(self, fn):
         """fn(out) -> (term, ty) in a conditional expression scope; returns (out, term, ty)"""
@@ -1147,6 +1190,8 @@ class FnBody:
                 cn, ty = self.env[n]
                 if ty[0] == "alias_last":
                     raise ParseError("`%s` (a &mut into a vector) can only be assigned through" % n)
+                if ty[0] in ("fn", "fnsel"):
+                    raise ParseError("`%s` (a function value) can only be called" % n)
                 return cn, ty
             if n == "None":
                 return "None", ("opt", None)
@@ -1158,26 +1203,47 @@ class FnBody:
         if k == "path":
             if e[1] == ["usize", "MAX"]:
                 return "MASK64", USIZE
+            if e[1] == ["u16", "MAX"]:
+                return "65535", U16
+            if len(e[1]) == 2 and e[1][0] == "broadword" and e[1][1] in self.gen.broadword_consts:
+                return "BroadwordGen.%s" % e[1][1], USIZE      # the generated constant of gen/BroadwordGen.v
+            if len(e[1]) == 2 and e[1][0] in ("Self", self.owner) and self.self_name is not None \
+                    and e[1][1] in self.gen.byname.get(self.owner, {}):
+                return None, ("fn", self.owner, e[1][1])       # a function used as a value: only callable
             raise ParseError("unsupported path %s" % "::".join(e[1]))
         if k == "cast":
             t, ty = self.expr(e[1], out)
+            if t is None:
+                raise ParseError("cast of a function value")
             if e[2] == "u32" and ty == USIZE:                  # truncation; only accepted as a shift amount
                 return "(N.modulo %s 4294967296)" % t, ("u32",)
+            if e[2] == "isize" and ty == USIZE:                # two's complement reinterpretation (Base/Loops.v)
+                return "(usize_as_isize %s)" % t, ISIZE
+            if e[2] == "u16" and ty == USIZE:                  # truncation
+                return "(N.modulo %s 65536)" % t, U16
             if e[2] != "usize":
                 raise ParseError("unsupported cast to %s" % e[2])
             if ty == BOOL:
                 return "(b2n %s)" % t, USIZE
             if ty == USIZE:
                 return t, USIZE
+            if ty == ISIZE:
+                return "(isize_as_usize %s)" % t, USIZE
+            if ty == U16:
+                return t, USIZE
             raise ParseError("unsupported cast from %r" % (ty,))
         if k == "ref":
             return self.expr(e[1], out)
+        if k == "refmut":
+            raise ParseError("`&mut` is only supported as the argument for a `&mut` parameter")
         if k == "un":
             t, ty = self.expr(e[2], out)
             if e[1] == "!" and ty == BOOL:
                 return "(negb %s)" % t, BOOL
             if e[1] == "!" and ty == USIZE:
                 return "(not64 %s)" % t, USIZE
+            if e[1] == "-" and ty == ISIZE:                    # checked negation of an isize
+                return self.bind(out, "isize_neg c %s" % t), ISIZE
             raise ParseError("unsupported unary %s on %r" % (e[1], ty))
         if k == "bin":
             return self.binop(e, out)
@@ -1194,14 +1260,20 @@ class FnBody:
         if k == "index":
             vt, vty = self.expr(e[1], out)
             it, ity = self.expr(e[2], out)
-            if vty[0] != "vec" or ity != USIZE or vty[1] != USIZE:
+            if vty[0] != "vec" or ity != USIZE or vty[1] not in (USIZE, ISIZE, U16):
                 raise ParseError("unsupported indexing")
-            return self.bind(out, "idx 0 %s %s" % (vt, it)), USIZE
+            return self.bind(out, "idx %s %s %s" % ("0%Z" if vty[1] == ISIZE else "0", vt, it)), vty[1]
         if k == "tuple" and not e[1]:
             return "tt", UNIT
         if k == "tuple":
             vals = [self.expr(x, out) for x in e[1]]
             return "(%s)" % ", ".join(t for t, _ in vals), ("tuple", [ty for _, ty in vals])
+        if k == "veclit":                                      # vec![a, b, ..]  vec![]
+            vals = [self.expr(x, out) for x in e[1]]
+            tys = set(ty for _, ty in vals)
+            if len(tys) > 1 or any(t is None for t, _ in vals):
+                raise ParseError("unsupported vec![..]")
+            return "[%s]" % "; ".join(t for t, _ in vals), ("vec", tys.pop() if tys else None)
         if k == "vecrep":                                      # vec![elem; count]
             t, ty = self.expr(e[1], out)
             n, nty = self.expr(e[2], out)
@@ -1278,14 +1350,17 @@ class FnBody:
                     raise ParseError("block-local `%s` shadows an outer variable" % clash[0])
                 return r
             finally:
-                self.declared.pop()
-                self.env = saved
+                self.restore_env(saved, self.declared.pop())
         cond, cty = self.expr(e[1], out)
         if cty != BOOL or e[3] is None:
             raise ParseError("if without else (or a non-boolean condition) in value position")
         o1, t1, ty1 = self.value_block(lambda o: self.expr(e[2], o))
         o2, t2, ty2 = self.value_block(lambda o: self.expr(e[3], o))
         ty = ty1 if ty1 != ("opt", None) else ty2
+        if ty1[0] == "fn" or ty2[0] == "fn":                   # `if b { Self::f } else { Self::g }`
+            if ty1[0] != ty2[0] or o1 or o2:
+                raise ParseError("unsupported selection of a function")
+            return None, ("fnsel", cond, ty1, ty2)
         if not o1 and not o2:
             return "(if %s then %s else %s)" % (cond, t1, t2), ty
         return self.bind(out, ite(cond, self.res_of(o1, t1), self.res_of(o2, t2))), ty
@@ -1314,6 +1389,18 @@ class FnBody:
         return self.apply_op(op, a, aty, b, bty, e[3], out)
 
     def apply_op(self, op, a, aty, b, bty, b_ast, out):
+        if aty == ISIZE:                               # comparisons and checked subtraction on isize (values in Z)
+            if b_ast is not None and b_ast[0] == "num":
+                b = "%d%%Z" % b_ast[1]
+            elif bty != ISIZE:
+                raise ParseError("operator %s on %r, %r" % (op, aty, bty))
+            if op in ZCMPS:
+                if op in (">", ">="):
+                    a, b = b, a
+                return "(" + ZCMPS[op] % (a, b) + ")", BOOL
+            if op == "-":
+                return self.bind(out, "isize_sub c %s %s" % (a, b)), ISIZE
+            raise ParseError("unsupported operator %s on isize" % op)
         if aty != USIZE or bty != USIZE:
             raise ParseError("operator %s on %r, %r" % (op, aty, bty))
         if op in ARITH:
@@ -1338,7 +1425,18 @@ class FnBody:
             if len(args) != 1:
                 raise ParseError("Some takes one argument")
             t, ty = self.expr(args[0], out)
+            if t is None:
+                raise ParseError("Some(..) of a function value")
             return "(Some %s)" % t, ("opt", ty)
+        if f[0] == "var" and f[1] in self.env and self.env[f[1]][1][0] in ("fn", "fnsel"):
+            fty = self.env[f[1]][1]                            # call through a local function value
+            if fty[0] == "fn":
+                return self.call_fn(fty[1], fty[2], None, args, out)
+            o1, t1, ty1 = self.value_block(lambda o: self.call_fn(fty[2][1], fty[2][2], None, args, o))
+            o2, t2, ty2 = self.value_block(lambda o: self.call_fn(fty[3][1], fty[3][2], None, args, o))
+            if ty1 != ty2:
+                raise ParseError("the functions selected for `%s` have different result types" % f[1])
+            return self.bind(out, ite(fty[1], self.res_of(o1, t1), self.res_of(o2, t2))), ty1
         if f[0] == "var" and f[1] in ("Ok", "Err"):
             raise ParseError("%s(..) is only supported as the result of the function" % f[1])
         if f[0] != "path" or len(f[1]) != 2:
@@ -1365,12 +1463,31 @@ class FnBody:
         if len(args) != len(ptys):
             raise ParseError("%s::%s: wrong number of arguments" % (owner, name))
         ats = []
-        for a, (pn, pty) in zip(args, ptys):
-            t, ty = self.expr(a, out)
-            if ty != pty and not (ty[0] == "opt" and ty[1] is None and pty[0] == "opt"):
+        muts = self.gen.mut_params(owner, name) if how == "gen" else []
+        for i, (a, (pn, pty)) in enumerate(zip(args, ptys)):
+            if (i in muts) != (a[0] == "refmut"):
+                raise ParseError("%s::%s: argument %s: `&mut` does not match the parameter" % (owner, name, pn))
+            t, ty = self.expr(a[1] if i in muts else a, out)
+            if ty == ("vec", None) and pty[0] == "vec":
+                self.refine_vec(a, pty)
+                ty = pty
+            if t is None or (ty != pty and not (ty[0] == "opt" and ty[1] is None and pty[0] == "opt")):
                 raise ParseError("%s::%s: argument %s has type %r, expected %r" % (owner, name, pn, ty, pty))
             ats.append(t)
         allargs = ([recv[0]] if recv is not None else []) + ats
+        if muts:                                       # the callee returns the new values of its `&mut` parameters
+            if skind != "static" or rty != UNIT or how != "gen":
+                raise ParseError("%s::%s: unsupported function with `&mut` parameters" % (owner, name))
+            places = [args[i][1] for i in muts]
+            if any(pl[0] != "var" or pl[1] not in self.env for pl in places) or \
+                    len(set(pl[1] for pl in places)) != len(places):
+                raise ParseError("%s::%s: `&mut` arguments must be distinct local variables" % (owner, name))
+            for pl in places:
+                self.note_assigned(pl[1])
+            cns = [self.env[pl[1]][0] for pl in places]
+            out.append(("bind", cns[0] if len(cns) == 1 else "'(" + ", ".join(cns) + ")",
+                        "%s c %s" % (what, " ".join(allargs))))
+            return "tt", UNIT
         if how == "pure":
             if skind == "mut":
                 raise ParseError("pure model accessor for a &mut method")
@@ -1440,9 +1557,19 @@ class FnBody:
                 return "(N.eqb (lenN %s) 0)" % rt, BOOL
             if name == "push" and len(args) == 1:
                 t, ty = self.expr(args[0], out)
-                if ty != rty[1]:
+                if rty[1] is None and t is not None:           # created by `vec![]`
+                    rty = ("vec", ty)
+                    self.refine_vec(recv_ast, rty)
+                if ty != rty[1] or t is None:
                     raise ParseError("push of %r onto %r" % (ty, rty))
                 self.set_place(recv_ast, "(%s ++ [%s])" % (rt, t), out)
+                return "tt", UNIT
+            if name in ("first", "last") and not args and rty[1] is not None:
+                return "(%s %s)" % ("hd_error" if name == "first" else "last_opt", rt), ("opt", rty[1])
+            if name == "clear" and not args:
+                self.set_place(recv_ast, "[]", out)
+                return "tt", UNIT
+            if name == "shrink_to_fit" and not args:           # capacity is not modelled
                 return "tt", UNIT
             raise ParseError("unsupported Vec method .%s()" % name)
         if k == "opt":
@@ -1532,6 +1659,8 @@ class FnBody:
         return False
 
     def declare(self, name, term, ty, out):
+        if name in self.mutparams:
+            raise ParseError("`let %s` shadows a `&mut` parameter" % name)
         cname = coq_ident(name)
         self.env[name] = (cname, ty)
         self.declared[-1].add(name)
@@ -1543,10 +1672,23 @@ class FnBody:
 
     def stmt(self, s, out):
         k = s[0]
+        if k == "let" and s[3][0] == "if" and s[3][3] is not None and self.contains_loop(s[3]):
+            self.let_if_join(s[1], s[3], out)
+            return False
         if k == "let":
             t, ty = self.expr(s[3], out)
             if ty[0] == "alias_last":
                 self.env[s[1]] = (None, ty)
+                return False
+            if ty[0] == "fn":                                     # let w = Self::f;
+                self.env[s[1]] = (None, ty)
+                self.declared[-1].add(s[1])
+                return False
+            if ty[0] == "fnsel":                                  # let w = if b { Self::f } else { Self::g };
+                sel = self.fresh()                                # the selecting boolean, under a name never rebound
+                out.append(("let", sel, ty[1]))
+                self.env[s[1]] = (None, ("fnsel", sel, ty[2], ty[3]))
+                self.declared[-1].add(s[1])
                 return False
             if ty[0] == "range" or t is None:
                 raise ParseError("unsupported let")
@@ -1745,17 +1887,22 @@ class FnBody:
         # join: neither branch returns
         self.join_scope += 1
         try:
+            locals_ = set()
+
             def branch(blk):
                 o = []
                 if blk is not None:
                     self.stmts(blk[1], o)
                     if blk[2] is not None:
-                        if blk[2][0] == "if":
+                        if blk[2][0] in ("if", "iflet"):
                             self.if_stmt(blk[2], o)
+                        elif blk[2][0] in LOOP_KINDS:
+                            self.loop_stmt(blk[2], o)
                         else:
                             t, ty = self.expr(blk[2], o)
                             if ty != UNIT:
                                 raise ParseError("value of an if statement is dropped")
+                locals_.update(self.declared[-1])
                 return o
             outer = dict(self.env)
             (o1, a1, env1) = self.scoped(lambda: branch(then))
@@ -1765,6 +1912,7 @@ class FnBody:
         names = sorted(n for n in (a1 | a2) if n in outer)
         if self.value_scope and names:
             raise ParseError("assignment inside a conditional expression")
+        self.check_join_shadow(names, locals_)
 
         def tail(env):
             vals = [env[n][0] for n in names]
@@ -1780,12 +1928,116 @@ class FnBody:
                 self.assigned[-1].add(n)
         return False
 
+    @staticmethod
+    def check_join_shadow(names, locals_):
+        """a variable joined after an if/else must not be shadowed by a `let` of a branch (the Coq name would be captured)"""
+        for n in names:
+            if n in locals_:
+                raise ParseError("branch-local `%s` shadows a variable assigned in the other branch" % n)
+
+    @staticmethod
+    def tuple_term(vals):
+        return vals[0] if len(vals) == 1 else "(" + ", ".join(vals) + ")"
+
+    def let_if_join(self, name, e, out):
+        """`let x = if c { stmts; v1 } else { stmts; v2 };` whose branches contain loops: a join of the value and of
+        the outer variables assigned in either branch"""
+        if self.value_scope:
+            raise ParseError("loop inside a conditional expression")
+        if self.contains_return(e[2]) or self.contains_return(e[3]):
+            raise ParseError("return / ? / break inside a conditional value")
+        cond, cty = self.expr(e[1], out)
+        if cty != BOOL:
+            raise ParseError("non-boolean condition")
+        locals_ = set()
+        self.join_scope += 1
+        try:
+            def branch(blk):
+                o = []
+                if self.stmts(blk[1], o) or blk[2] is None:
+                    raise ParseError("block without value")
+                t, ty = self.expr(blk[2], o)
+                if t is None:
+                    raise ParseError("unsupported conditional value")
+                locals_.update(self.declared[-1])
+                return o, t, ty
+            outer = dict(self.env)
+            ((o1, t1, ty1), a1, env1) = self.scoped(lambda: branch(e[2]))
+            ((o2, t2, ty2), a2, env2) = self.scoped(lambda: branch(e[3]))
+        finally:
+            self.join_scope -= 1
+        if ty1 != ty2:
+            raise ParseError("branches of different types")
+        names = sorted(n for n in (a1 | a2) if n in outer)
+        self.check_join_shadow(names, locals_)
+        cname = coq_ident(name)
+        cnames = [cname] + [outer[n][0] for n in names]
+        if len(set(cnames)) != len(cnames):
+            raise ParseError("`%s` is also assigned inside its own initialiser" % name)
+        b1 = render(o1, "Ok %s" % self.tuple_term([t1] + [env1[n][0] for n in names]))
+        b2 = render(o2, "Ok %s" % self.tuple_term([t2] + [env2[n][0] for n in names]))
+        out.append(("bind", cname if len(cnames) == 1 else "'(" + ", ".join(cnames) + ")", ite(cond, b1, b2)))
+        self.env[name] = (cname, ty1)
+        self.declared[-1].add(name)
+        for n in names:
+            if n not in self.declared[-1]:
+                self.assigned[-1].add(n)
+
+    def iflet_join(self, e, t, ty, out):
+        """`if let Some(x) = e { .. } [else { .. }]` without return / break: a join like if/else"""
+        _, name, scrut, then, els = e
+        x = coq_ident(name)
+        locals_ = set()
+        self.join_scope += 1
+        try:
+            def branch(blk, some):
+                o = []
+                if some:
+                    self.env[name] = (x, ty[1])
+                    self.declared[-1].add(name)
+                if blk is not None:
+                    self.stmts(blk[1], o)
+                    if blk[2] is not None:
+                        if blk[2][0] in ("if", "iflet"):
+                            self.if_stmt(blk[2], o)
+                        elif blk[2][0] in LOOP_KINDS:
+                            self.loop_stmt(blk[2], o)
+                        else:
+                            v, vty = self.expr(blk[2], o)
+                            if vty != UNIT:
+                                raise ParseError("value of an if statement is dropped")
+                locals_.update(self.declared[-1])
+                return o
+            outer = dict(self.env)
+            (o1, a1, env1) = self.scoped(lambda: branch(then, True))
+            (o2, a2, env2) = self.scoped(lambda: branch(els, False))
+        finally:
+            self.join_scope -= 1
+        names = sorted(n for n in (a1 | a2) if n in outer)
+        if self.value_scope and names:
+            raise ParseError("assignment inside a conditional expression")
+        self.check_join_shadow(names, locals_)
+        cnames = [outer[n][0] for n in names]
+
+        def tail(env):
+            return "Ok %s" % (self.tuple_term([env[n][0] for n in names]) if names else "tt")
+        pat = "_" if not cnames else cnames[0] if len(cnames) == 1 else "'(" + ", ".join(cnames) + ")"
+        out.append(("bind", pat, "match %s with\n| Some %s =>\n%s\n| None =>\n%s\nend" % (
+            t, x, indent(render(o1, tail(env1)), 4), indent(render(o2, tail(env2)), 4))))
+        for n in names:
+            if n not in self.declared[-1]:
+                self.assigned[-1].add(n)
+        return False
+
     def iflet_stmt(self, e, out):
-        """`if let Some(x) = e { ..; return / break } [else { .. }]`: the else part continues with the rest"""
+        """`if let Some(x) = e { ..; return / break } [else { .. }]`: the else part continues with the rest;
+        without return / break in either branch: a join (iflet_join)"""
         _, name, scrut, then, els = e
         t, ty = self.expr(scrut, out)
         if ty[0] != "opt" or ty[1] is None:
             raise ParseError("`if let Some(..)` on a non-Option")
+        if not self.contains_return(then) and not self.contains_return(els):
+            return self.iflet_join(e, t, ty, out)
         if not self.ends_with_return(then) or self.value_scope or self.join_scope:
             raise ParseError("`if let` is only supported when its block ends with return / break")
         if els is not None and els[0] == "block" and not els[1] and els[2] is not None and els[2][0] in ("if", "iflet"):
@@ -1817,6 +2069,15 @@ class FnBody:
         """the list a `for` loop runs over (evaluated once, before the loop)"""
         while e[0] == "ref" or (e[0] == "mcall" and e[2] in ("iter", "into_iter") and not e[3]):
             e = e[1]
+        if e[0] == "mcall" and e[2] == "step_by" and len(e[3]) == 1 and e[1][0] == "bin" and e[1][1] == "..":
+            a, aty = self.expr(e[1][2], out)                   # (a..b).step_by(s): a, a+s, .. below b
+            b, bty = self.expr(e[1][3], out)
+            st, sty = self.expr(e[3][0], out)
+            if aty != USIZE or bty != USIZE or sty != USIZE:
+                raise ParseError("range over non-usize")
+            if not self.const_value(e[3][0]):                  # step_by(0) panics when the iterator is created
+                out.append(("bind", "_", "assert_ (negb (N.eqb %s 0))" % st))
+            return "(nrange_by %s %s %s)" % (a, b, st), USIZE
         if e[0] == "bin" and e[1] == "..":
             a, aty = self.expr(e[2], out)
             b, bty = self.expr(e[3], out)
@@ -1857,6 +2118,9 @@ class FnBody:
                 raise ParseError("return inside a nested loop")
             self.ret_wrap = wrap
         outer = dict(self.env)
+        saved_join = self.join_scope
+        if not has_ret:
+            self.join_scope = 0        # a `break` in the body leaves this loop, not the if/else the loop stands in
 
         def run_body():
             o = []
@@ -1886,6 +2150,7 @@ class FnBody:
         finally:
             self.loops.pop()
             self.ret_wrap = saved_wrap
+            self.join_scope = saved_join
         names = sorted(n for n in assigned if n in outer)
         for n in names:
             if n in ctx["declared"]:
@@ -1913,6 +2178,16 @@ class FnBody:
             out.append(("bindret", mpat, loop, self.fresh()))
         else:
             out.append(("bind", bpat, loop))
+        return False
+
+    @classmethod
+    def contains_loop(cls, node):
+        if isinstance(node, tuple):
+            if node and node[0] in LOOP_KINDS:
+                return True
+            return any(cls.contains_loop(x) for x in node)
+        if isinstance(node, list):
+            return any(cls.contains_loop(x) for x in node)
         return False
 
     @classmethod
@@ -1944,6 +2219,10 @@ class FnBody:
         ret, mut = self.ret, self.kind == "mut"
         if e is not None and e[0] == "block":
             return self.body_term(e[1], e[2], out)
+        if self.mutparams and not (e is not None and e[0] == "if" and e[3] is not None):
+            if e is not None and self.expr(e, out)[1] != UNIT:
+                raise ParseError("value returned from a () function")
+            return self.fin(out, self.tuple_term([self.env[n][0] for n in self.mutparams]))
         if e is not None and e[0] == "if" and e[3] is not None:
             cond, cty = self.expr(e[1], out)
             if cty != BOOL:
@@ -2040,6 +2319,8 @@ class FnBody:
                 "res (%s * %s)" % (cty, coq_type(ret))
         elif ret[0] == "result":
             cty = "res (option %s)" % coq_type(ret[1])
+        elif self.mutparams:                                  # the new values of the `&mut` parameters
+            cty = "res (%s)" % " * ".join(coq_type(t) for n, t in self.params if n in self.mutparams)
         else:
             cty = "res %s" % coq_type(ret)
         ps = []
@@ -2083,7 +2364,24 @@ def gen_methods(repo):
 # A generic parameter `I: IntoIterator<Item = T>` is a list of T (the iterator argument is consumed in order, once).
 # Iterator structs holding `&BitVector` are records defined in the generated file itself (LOOP_RECORDS).
 # Callees: targets of this file -> generated here; loop-free targets of gen/MethodsGen.v -> their generated form;
-# broadword.rs -> the spec-level word functions (C14).  Everything else in a target function: ParseError naming it.
+# broadword.rs -> the spec-level word functions (C14), `uleq_step_9` and `broadword::CONSTANT` -> the generated
+# definitions of gen/BroadwordGen.v.  Everything else in a target function: ParseError naming it.
+#
+# Forms added for the index structures (Rank9SelIndex, Rank9Sel, DArrayIndex, DArray; tied by Proofs/LoopsTieIdx.v):
+#  * `self` / `mut self` by value: an ordinary value named self; `self.f = e` rebinds it, the result is the value.
+#  * `fn f(a: &mut Vec<T>, ..)` (static, returning ()): the generated function returns the tuple of the new values of its
+#    `&mut` parameters (parameter order); a call `f(&mut x, ..)` rebinds the local variables x, ...
+#  * `vec![]`, `vec![a, b]`; a vector created empty learns its element type at the first push / call; `.first()`,
+#    `.last()` (hd_error / last_opt), `.clear()`, `.shrink_to_fit()` (no-op), `let &x = e`.
+#  * `for i in (a..b).step_by(s)`: fold over `nrange_by a b s` (with `assert_ (s != 0)` unless s is a non-zero constant).
+#  * isize / u16: `x as isize`, `z as usize` (two's complement reinterpretation, Base/Loops.v), `x as u16` (mod 2^16),
+#    `u16 as usize`, `u16::MAX`, comparisons of an isize, checked isize negation and subtraction (isize_neg / isize_sub),
+#    indexing of Vec<isize> / Vec<u16>.
+#  * a function selected by a boolean, `let w = if b { Self::f } else { Self::g };  ..  w(args)`: the boolean is bound
+#    once (`let tN := b in`), every call becomes `if tN then f c args else g c args`.
+#  * `let x = if c { stmts; v } else { stmts; w };` whose branches contain loops: a join of x and the outer variables
+#    assigned in either branch; `if let Some(x) = e { .. } [else { .. }]` without return / break: a join by `match`.
+#    A `break` inside a loop that stands inside such a join leaves that loop (the join itself cannot be left).
 # ---------------------------------------------------------------------------------------------
 
 LOOP_RECORDS = {
@@ -2092,16 +2390,25 @@ LOOP_RECORDS = {
                                 ("buf", "usize", "ui_buf")]),
 }
 RECORDS.update(LOOP_RECORDS)
+RECORDS["Rank9Sel"] = ("r9sel", [("bv", "BitVector", "r9_bv"), ("rs", "Rank9SelIndex", "r9_rs")])   # Model/Rank9.v
 
 LOOP_TYPE_FILES = {
     "BitVector": "src/bit_vectors/bit_vector.rs",
     "Iter": "src/bit_vectors/bit_vector.rs",
     "UnaryIter": "src/bit_vectors/bit_vector/unary.rs",
+    "Rank9SelIndex": "src/bit_vectors/rank9sel/inner.rs",
+    "Rank9Sel": "src/bit_vectors/rank9sel.rs",
+    "DArrayIndex": "src/bit_vectors/darray/inner.rs",
+    "DArray": "src/bit_vectors/darray.rs",
 }
 LOOP_MODULES = [
     ("bit_vector", "BitVector", "bit_vector"),
     ("bit_vector_iter", "Iter", "bit_vector"),
     ("unary_iter", "UnaryIter", "bit_vector"),
+    ("rank9", "Rank9SelIndex", "rank9"),
+    ("rank9sel", "Rank9Sel", None),
+    ("darray_index", "DArrayIndex", "darray"),
+    ("darray", "DArray", None),
 ]
 LOOP_TARGETS = {
     "bit_vector": [(None, "new"), (None, "from_bit"), (None, "from_bits"), ("Extend", "extend"), ("Rank", "rank1"),
@@ -2109,13 +2416,34 @@ LOOP_TARGETS = {
                    (None, "successor1"), (None, "successor0")],
     "bit_vector_iter": [(None, "new"), ("Iterator", "next"), ("Iterator", "size_hint")],
     "unary_iter": [(None, "new"), (None, "position"), (None, "skip1"), (None, "skip0"), ("Iterator", "next")],
+    # Proofs/LoopsTieIdx.v
+    "rank9": [(None, "build_rank"), (None, "build_select1"), (None, "build_select0"), (None, "new"),
+              (None, "select1_hints"), (None, "select0_hints"), (None, "select1"), (None, "select0")],
+    "rank9sel": [(None, "new"), (None, "select1_hints"), (None, "select0_hints"), (None, "from_bits"),
+                 ("Build", "build_from_bits"), (None, "len"), ("NumBits", "num_bits"), ("NumBits", "num_ones"),
+                 ("Access", "access"), ("Rank", "rank1"), ("Rank", "rank0"), ("Select", "select1"),
+                 ("Select", "select0")],
+    "darray_index": [(None, "get_word_over_one"), (None, "get_word_over_zero"), (None, "flush_cur_block"),
+                     (None, "build"), (None, "new"), (None, "select")],
+    "darray": [(None, "from_bits"), (None, "enable_rank"), (None, "enable_select0"), ("Build", "build_from_bits")],
 }
+# functions of broadword.rs called in their generated form (gen/BroadwordGen.v): name -> (parameter types, result type)
+LOOP_BROADWORD_FNS = {"uleq_step_9": (["usize", "usize"], "usize")}
 # constants a module imports from its parent: module -> (required `use` line, module of the constants)
 LOOP_IMPORTED_CONSTS = {"UnaryIter": ("use super::WORD_LEN;", "BitVector", ["WORD_LEN"])}
 
 
 class LoopsGen(MethodsGen):
     type_files, modules, targets = LOOP_TYPE_FILES, LOOP_MODULES, LOOP_TARGETS
+
+    def __init__(self, repo):
+        MethodsGen.__init__(self, repo)
+        bw = rp.strip_tests(open(os.path.join(repo, "src/broadword.rs")).read())
+        self.broadword_consts = {n: init for n, ty, init in rp.top_level_consts(bw) if ty == "usize"}
+        sigs = {n: (rp.typed_params(p), r) for n, p, r, _, _ in rp.functions(bw)}
+        for n, (ps, r) in LOOP_BROADWORD_FNS.items():          # the signatures assumed above are those of the source
+            if n not in sigs or [t for _, t in sigs[n][0]] != ps or sigs[n][1] != r:
+                raise ParseError("broadword::%s changed its signature" % n)
 
     def module_consts(self, owner, prefix):
         if owner in LOOP_IMPORTED_CONSTS:
@@ -2139,6 +2467,10 @@ class LoopsGen(MethodsGen):
             how, what = MODEL_CALLEES[(owner, name)]
             ps, r = BROADWORD_SIGS[name]
             return how, what, ("static", [("x", parse_rtype(p, None)) for p in ps], parse_rtype(r, None))
+        if owner == "broadword" and name in LOOP_BROADWORD_FNS:
+            ps, r = LOOP_BROADWORD_FNS[name]
+            return "res", "BroadwordGen.%s" % name, (
+                "static", [("x", parse_rtype(p, None)) for p in ps], parse_rtype(r, None))
         raise ParseError("call to %s::%s, which is neither a translated function nor a known model function" % (owner, name))
 
     def record_decls(self):
@@ -2149,10 +2481,13 @@ class LoopsGen(MethodsGen):
         return out
 
 
-LOOPS_HEADER = """(* GENERATED by tools/translate.py from the functions with loops of src/bit_vectors/bit_vector.rs and
-   src/bit_vectors/bit_vector/unary.rs -- do not edit.
-   Proofs/LoopsTieBV.v proves every definition equal to the hand-written model function. *)
-From Sucds Require Import Base.Res Base.Loops Spec.WordSpec Model.BitVector gen.ConstsGen gen.MethodsGen.
+LOOPS_HEADER = """(* GENERATED by tools/translate.py from the functions with loops of src/bit_vectors/bit_vector.rs,
+   src/bit_vectors/bit_vector/unary.rs, src/bit_vectors/rank9sel/inner.rs, rank9sel.rs, darray/inner.rs and
+   darray.rs -- do not edit.
+   Proofs/LoopsTieBV.v and Proofs/LoopsTieIdx.v prove every definition equal to the hand-written model function. *)
+From Sucds Require Import Base.Res Base.Loops Spec.WordSpec Model.BitVector Model.Rank9 Model.DArray gen.ConstsGen
+  gen.MethodsGen.
+From Sucds Require gen.BroadwordGen.
 Open Scope N_scope.
 """
 
